@@ -2,9 +2,12 @@ CONSTANTS
   MaxCmds = 3
   MaxPending = 3
   MaxNum = 2
-  MaxItems = 2
-  Kinds = {"SELECT", "FETCH", "STORE", "UIDFETCH", "EXPUNGE", "UIDEXPUNGE", "MOVE", "COPY", "SORT", "THREAD"}
-  Greetings = {"PREAUTH"}
+  MaxItems = 1
+  MaxUid = 1
+  MaxCode = 1
+  NFlagSets = 2
+  Kinds = {"NOOP", "LOGIN", "SELECT", "UNSELECT", "STATUS", "LIST", "SEARCH", "ESEARCH", "FETCH", "EXPUNGE", "LOGOUT"}
+  Greetings = {"OK"}
 INIT Init
 NEXT Next
 VIEW McView
